@@ -109,6 +109,8 @@ Proof. reflexivity. Qed.
 (* the two places Dedup.and_step / Dedup.else_step apply the check at are the places the code applies it at *)
 Lemma dedup_sites_as_modelled : and_dedup_site = SiteFalseLeft /\ else_dedup_site = SiteRightTrue.
 Proof. split; reflexivity. Qed.
+Lemma operand_order_as_modelled : comparator_right_first_iff_bound = true.
+Proof. reflexivity. Qed.
 
 (* the duplicate check of the D-model IS _is_duplicate_output_ over the line-by-line model of SeenSet, as long as `all_seen` is off -
    and it stays off, because the set is never asked about an empty assignment *)
